@@ -487,6 +487,25 @@ func (t *bytesTranslator) body(stmts []ast.Stmt, en env) (string, error) {
 				if es, ok := rest[0].(*ast.ExprStmt); ok {
 					if c2, ok := es.X.(*ast.CallExpr); ok {
 						if sel, ok := c2.Fun.(*ast.SelectorExpr); ok && sel.Sel.Name == "PutUint64" && len(c2.Args) == 2 {
+							// the byte order is part of the key: binary.BigEndian -> be64, binary.LittleEndian -> le64
+							enc := ""
+							switch selName(sel) {
+							case "BigEndian.PutUint64":
+								enc = "be64"
+							case "LittleEndian.PutUint64":
+								enc = "le64"
+							}
+							if bo, ok := sel.X.(*ast.SelectorExpr); ok {
+								switch bo.Sel.Name {
+								case "BigEndian":
+									enc = "be64"
+								case "LittleEndian":
+									enc = "le64"
+								}
+							}
+							if enc == "" {
+								return "", unsup("PutUint64 with unknown byte order")
+							}
 							if a0, ok := c2.Args[0].(*ast.Ident); ok && a0.Name == id.Name {
 								n, err := t.num(c2.Args[1], en)
 								if err != nil {
@@ -498,7 +517,7 @@ func (t *bytesTranslator) body(stmts []ast.Stmt, en env) (string, error) {
 								if err != nil {
 									return "", err
 								}
-								return fmt.Sprintf("let %s : Bytes := be64 %s\n  %s", lid(id.Name), n, k), nil
+								return fmt.Sprintf("let %s : Bytes := %s %s\n  %s", lid(id.Name), enc, n, k), nil
 							}
 						}
 					}
@@ -532,6 +551,18 @@ func (t *bytesTranslator) body(stmts []ast.Stmt, en env) (string, error) {
 		}
 		sw, ok := rest[0].(*ast.SwitchStmt)
 		if !ok {
+			// `var key []byte` followed by `key = append(key, …)`: the nil slice is the empty byte string
+			if at, isArr := vs.Type.(*ast.ArrayType); isArr && at.Len == nil {
+				if el, isId := at.Elt.(*ast.Ident); isId && el.Name == "byte" {
+					en2 := copyEnv(en)
+					en2[name] = paramSpec{kind: kBytes}
+					k, err := t.body(rest, en2)
+					if err != nil {
+						return "", err
+					}
+					return fmt.Sprintf("let %s : Bytes := []\n  %s", lid(name), k), nil
+				}
+			}
 			return "", unsup("decl not followed by switch")
 		}
 		m, err := t.switchExpr(sw, en, func(body []ast.Stmt) (string, error) {
